@@ -209,8 +209,13 @@ def run_model(module: str, tag: str, *, constants: dict | None = None, invariant
     if constants:
         cfg.append("CONSTANTS")
     for name, val in constants.items():
-        lines.append(f"const_{name} == {_expr(val)}")
-        cfg.append(f"  {name} <- const_{name}")
+        if "(" in name:                      # operator constant, e.g. "LminsOf(n)"
+            base = name[:name.index("(")]
+            lines.append(f"const_{name} == {_expr(val)}")
+            cfg.append(f"  {base} <- const_{base}")
+        else:
+            lines.append(f"const_{name} == {_expr(val)}")
+            cfg.append(f"  {name} <- const_{name}")
     if extra_defs:
         lines.append(extra_defs)
     lines.append("====")
